@@ -26,7 +26,10 @@ RULE = ("every tree shape with <= 3 levels / 2..N leaves x label scheme x "
         "centroid queries {all leaves, leaves under each top-level node, "
         "each single leaf (quick: first and last)} x bootstrap (factor, "
         "iterations) {(1,1),(1,3),(0.5,5),(0.25,7),(0.97,7),(1,256),(0.97,256)} x "
-        "result buffer {scratch, result directory} x seeds {VERIF_SEED, +1} x all rotations of the query gene order x "
+        "result buffer {scratch, result directory} x seeds {VERIF_SEED, +1} x all rotations of the query gene order "
+        "(declared log2CPM; one rotation also as raw counts 2^mean-1 per "
+        "million plus a gene unknown to the reference carrying the rest of "
+        "the 10^6, declared raw) x "
         "(chunk_size, n_processors) {(100,1),(1,2),(2,3)}; precondition "
         "(no other leaf below the node perfectly correlated on the genes "
         "used; own sub-profile not constant) evaluated on the recorded "
@@ -206,8 +209,14 @@ def evaluate(case, scratch):
         stub.marker_path = marker_path
         stub._query_cache = {}
         run_idx = 0
+        rot_list = list(rotations)
+        # the same centroid also as RAW counts: 2^mean - 1 counts per
+        # million on the reference genes plus one gene unknown to the
+        # reference that carries the rest of the 10^6, declared 'raw'
+        variants = [(r, 'log2CPM') for r in rot_list] + \
+            [(rot_list[-1], 'raw')]
         for (qname, qleaves), (factor, it) in itertools.product(subsets, boots):
-            for ri, rot in enumerate(rotations):
+            for ri, (rot, form) in enumerate(variants):
                 if it > 100 and ri > 0:
                     continue
                 # not the full product: rotate through pools / seeds
@@ -217,13 +226,22 @@ def evaluate(case, scratch):
                 order = [(j + rot) % G for j in range(G)]
                 genes = [s_genes[j] for j in order]
                 mat = np.array([centroid[leaf][order] for leaf in qleaves])
+                if form == 'raw':
+                    cpm = np.power(2.0, mat) - 1.0
+                    rest = 1.0e6 - cpm.sum(axis=1)
+                    if rest.min() < 0.0:
+                        continue
+                    pos = rot % (G + 1)
+                    genes = genes[:pos] + ['zz_unknown_to_reference'] + \
+                        genes[pos:]
+                    mat = np.insert(cpm, pos, rest, axis=1)
                 ids = [f'centroid_of_{leaf}' for leaf in qleaves]
                 qpath = d / f'q_{n_runs}.h5ad'
                 stub.query_genes = genes
                 stub.cell_ids = ids
                 stub.raw = mat
                 stub.log2cpm = mat
-                scenario.write_query(stub, 'log2CPM', 'dense', name=qpath.name,
+                scenario.write_query(stub, form, 'dense', name=qpath.name,
                                      matrix=mat, genes=genes, ids=ids)
                 run_dir = scratch.new_dir('r')
                 tdir = run_dir / 'trace'
@@ -231,7 +249,7 @@ def evaluate(case, scratch):
                 trace.retarget(tdir)
                 try:
                     o = scenario.run_mapping(
-                        stub, {'normalization': 'log2CPM', 'factor': factor,
+                        stub, {'normalization': form, 'factor': factor,
                                'iterations': it, 'chunk_size': chunk,
                                'n_processors': npr, 'rng_seed': rng_seed,
                                'n_runners_up': 2, 'min_markers': 1,
@@ -244,7 +262,8 @@ def evaluate(case, scratch):
                 n_runs += 1
                 desc = (('rebuilt in place: ' if phase else '') +
                         (f'leaf {empty} without cells: ' if empty else '') +
-                        f'query={qname} factor={factor} iterations={it} '
+                        f'query={qname} form={form} factor={factor} '
+                        f'iterations={it} '
                         f'rotation={rot} chunk={chunk} workers={npr} '
                         f'seed={rng_seed}')
                 if not (o.ok and o.blob and 'results' in o.blob):
